@@ -253,6 +253,11 @@ func (e *Engine) paramNullable(fn *ssa.Function, fc *FuncContract, p *ssa.Parame
 	if fn.Signature.Recv() != nil && len(fn.Params) > 0 && p == fn.Params[0] {
 		return false
 	}
+	// a parameter the function itself compares with nil may be nil: the code
+	// behind that test must not count as unreachable
+	if paramTestedForNil(fn, p) {
+		return true
+	}
 	if fc != nil {
 		if fc.Nullable[p.Name()] || fc.Nullable["*"] {
 			return true
@@ -765,4 +770,22 @@ func (fr *frame) appendAliasObligations(props []string) {
 			o2.SrcLine = "append to a sub-slice may write in place into the shared backing array: " + bad
 		}
 	}
+}
+
+// paramTestedForNil: the function compares parameter p with nil.
+func paramTestedForNil(fn *ssa.Function, p *ssa.Parameter) bool {
+	isNil := func(v ssa.Value) bool {
+		c, ok := v.(*ssa.Const)
+		return ok && c.Value == nil
+	}
+	for _, b := range fn.Blocks {
+		for _, ins := range b.Instrs {
+			if bo, ok := ins.(*ssa.BinOp); ok && (bo.Op == token.EQL || bo.Op == token.NEQ) {
+				if (bo.X == ssa.Value(p) && isNil(bo.Y)) || (bo.Y == ssa.Value(p) && isNil(bo.X)) {
+					return true
+				}
+			}
+		}
+	}
+	return false
 }
